@@ -62,11 +62,25 @@ structure ConnInv (k : Conn) : Prop where
   fresh : (k.rpc = .backlog ∨ k.rpc = .unreg) → k.reqs = [] ∧ k.registered = false
   regPc : k.registered = false → k.rpc = .backlog ∨ k.rpc = .unreg ∨ k.rpc = .closed
 
+/-- how the handler of a request dispatched on the open connection may have ended when the connection
+is closed: executed with its response written to the open connection (`done true`); in the
+early-decrement variant also with its write still pending or made late -/
+def HSt.safeEnd : HSt → Bool
+  | .done true | .writePending | .doneLate _ => true
+  | _ => false
+
 /-- the safety clause for one connection: once the server has closed it, every request that was
 dispatched while it was open has been executed, its response written to the open connection and its
 handler has finished -/
 def ConnSafe (k : Conn) : Prop :=
-  k.srvClosed = true → ∀ q ∈ k.reqs, q.dispOpen = true → q.st = .done true
+  k.srvClosed = true → ∀ q ∈ k.reqs, q.dispOpen = true → q.st.safeEnd = true
+
+theorem safeEnd_isDone {st : HSt} (h : st.safeEnd = true) : st.isDone = true := by
+  cases st <;> simp_all [HSt.safeEnd, HSt.isDone]
+
+/-- without the early-decrement variant's states, `safeEnd` is `done true` -/
+theorem safeEnd_done {st : HSt} (h : st.safeEnd = true) (he : st.early = false) : st = .done true := by
+  cases st <;> simp_all [HSt.safeEnd, HSt.early]
 
 /-- what never goes back in a connection record -/
 structure ConnMono (k k' : Conn) : Prop where
@@ -86,7 +100,7 @@ theorem connInv_new : ConnInv Conn.new := by
 
 /-- an open connection with `numInvoke = 0`: everything dispatched is finished with its response written -/
 theorem all_done_of_zero {k : Conn} (hi : ConnInv k) (ho : k.srvClosed = false) (hz : k.numInvoke = 0) :
-    ∀ q ∈ k.reqs, q.dispOpen = true → q.st = .done true := by
+    ∀ q ∈ k.reqs, q.dispOpen = true → q.st.safeEnd = true := by
   intro q hq _
   have hc : k.reqs.countP notDone = 0 := by rw [← hi.count]; exact hz
   have hnd := countP_zero_all notDone k.reqs hc q hq
@@ -96,6 +110,8 @@ theorem all_done_of_zero {k : Conn} (hi : ConnInv k) (ho : k.srvClosed = false) 
     cases ok with
     | true => rfl
     | false => simp [hst, HSt.ok] at hok
+  | writePending => rfl
+  | doneLate ok => rfl
   | queued => simp [notDone, hst, HSt.isDone] at hnd
   | handed => simp [notDone, hst, HSt.isDone] at hnd
   | running => simp [notDone, hst, HSt.isDone] at hnd
@@ -322,10 +338,9 @@ theorem good_cSetSt (i : Nat) (frm : HSt) (to : Conn → HSt)
     rcases List.mem_or_eq_of_mem_set hx with hx | hx
     · exact hs hcl x hx hd
     · subst hx
-      have := hs hcl q (mem_of_getElem? hq) hd
-      rw [hst] at this
-      rw [this] at hfrm
-      simp [HSt.isDone] at hfrm
+      have h2 := safeEnd_isDone (hs hcl q (mem_of_getElem? hq) hd)
+      rw [hst, hfrm] at h2
+      contradiction
 
 theorem stay_cSetSt (i : Nat) (frm : HSt) (to : Conn → HSt) : Stay (fun k => cSetSt i frm (to k) k) := by
   intro k k' h hb
